@@ -333,5 +333,6 @@ def run(ctx, scratch):
     ctx.rule = ('every registered estimator / path / structure function accepting bipartite input (%d) x random biadjacency matrices '
                 '(rectangular; square with force_bipartite) x row-only / column-only / mixed seeds or sources in dict/array/list form; '
                 'compared with the run on the block adjacency with translated seeds; distinct by (entry point, B, arguments)' % len(names))
+    ctx.rule += ' Source terms: the statements regenerated from values.py / format.py are executed inside Coq on random seed arguments (None / array / list / dict in any key order, wrong lengths, keys past the end, empty dicts) and compared with direct calls of get_values / stack_values / get_adjacency_values (source_terms_evaluated).'
     ctx.assumptions = ['ARPACK-backed outputs are skipped when the spectrum (of B or of the block matrix, whose singular values come in pairs) is degenerate',
                        'metrics (get_modularity) and matrix utilities are outside the statement (estimators, path and structure functions)']
